@@ -4,7 +4,13 @@
 #include <Eigen/Core>
 #include <complex>
 #include <thread>
+// guarded factorization hook: counts the calls of expand_basis (each ends in one of the two breakdown events)
+static thread_local long g_expand_calls = 0;
+#define SPECTRA_VERIF_FAC_HOOK(point, fac, k) do { if (point[0] == 'b') g_expand_calls++; } while (0)
 #include <Spectra/Util/SimpleRandom.h>
+#include <Spectra/SymEigsSolver.h>
+#include <Spectra/HermEigsSolver.h>
+#include <Spectra/GenEigsSolver.h>
 
 const char* vf_driver() { return "c19_rng"; }
 
@@ -31,6 +37,7 @@ static void build_cases(const vf::Ctx& ctx)
 #endif
     for (long c = 0; c < NSEEDCH; c++) for (long j = 0; j < 5; j++) g_cases.push_back({2, c, j});
     for (long t = 0; t < (ctx.thorough ? 16 : 4); t++) g_cases.push_back({3, t, 0});
+    for (long t = 0; t < (ctx.thorough ? 400 : 60); t++) g_cases.push_back({4, t, 0});
 }
 long vf_ncases(const vf::Ctx& ctx) { build_cases(ctx); return (long) g_cases.size(); }
 
@@ -240,6 +247,109 @@ static void threads(vf::Ctx& ctx, long t)
     ctx.set_sample(vf::J().kv("kind", "16-thread-purity").kv("base_seed", base).kv("digest", std::to_string(want)).str());
 }
 
+// ---- the vectors a default-initialised solver draws are Park-Miller streams: the start vector of init() is the stream of seed 0, and the vector that
+// expand_basis applies the operator to at its first try is the stream of the seed it was called with (2*i for a breakdown at step i). Observed at the
+// operator: a recording user-defined operator sees every vector the iteration hands over.
+template <class Scalar> struct StreamRef
+{
+    using Real = typename Eigen::NumTraits<Scalar>::Real;
+    static Scalar draw(uint64_t& st, std::false_type) { st = ref_next(st); return Scalar(Real((long) st) / Real(2147483647UL) - Real(0.5)); }
+    static Scalar draw(uint64_t& st, std::true_type)
+    {
+        st = ref_next(st); const Real re = Real((long) st) / Real(2147483647UL) - Real(0.5);
+        st = ref_next(st); const Real im = Real((long) st) / Real(2147483647UL) - Real(0.5);
+        return Scalar(re, im);
+    }
+    // does x equal the stream of `seed`, element by element (4 ulp of 0.5)?
+    static bool matches(const Scalar* x, int n, unsigned long seed)
+    {
+        uint64_t st = seed ? (seed & M) : 1;
+        const Real tol = Real(4) * std::numeric_limits<Real>::epsilon();
+        for (int i = 0; i < n; i++)
+        {
+            const Scalar w = draw(st, std::integral_constant<bool, Eigen::NumTraits<Scalar>::IsComplex>());
+            if (!(std::abs(x[i] - w) <= tol)) return false;
+        }
+        return true;
+    }
+};
+template <class S>
+struct RecOp
+{
+    using Scalar = S;
+    using Mat = Eigen::Matrix<S, Eigen::Dynamic, Eigen::Dynamic>;
+    const Mat& A;
+    mutable std::vector<Eigen::Matrix<S, Eigen::Dynamic, 1>> inputs;
+    explicit RecOp(const Mat& a) : A(a) {}
+    Eigen::Index rows() const { return A.rows(); }
+    Eigen::Index cols() const { return A.cols(); }
+    void perform_op(const S* x, S* y) const
+    {
+        Eigen::Map<const Eigen::Matrix<S, Eigen::Dynamic, 1>> xv(x, A.cols());
+        inputs.push_back(xv);
+        Eigen::Map<Eigen::Matrix<S, Eigen::Dynamic, 1>> yv(y, A.rows());
+        yv.noalias() = A * xv;
+    }
+};
+template <class Solver, class Op, class Rule>
+static void stream_check(vf::Ctx& ctx, const char* name, Op& op, int nev, int ncv, Rule rule, bool want_breakdowns)
+{
+    using S = typename Op::Scalar;
+    const int n = (int) op.rows();
+    Solver es(op, nev, ncv);
+    g_expand_calls = 0;
+    op.inputs.clear();
+    es.init();
+    const size_t after_init = op.inputs.size();
+    try { es.compute(rule, 30, 1e-10); } catch (const std::exception&) {}
+    auto info = [&]() { return vf::J().kv("solver", name).kv("n", n).kv("nev", nev).kv("ncv", ncv); };
+    ctx.count("solver_streams/default_inits");
+    if (after_init < 1 || !StreamRef<S>::matches(op.inputs[0].data(), n, 0))
+        ctx.violation(std::string("solver-stream/default-start-vector-is-not-the-stream-of-seed-0/") + name, info().str());
+    long recognised = 0;
+    for (size_t q = after_init; q < op.inputs.size(); q++)
+        for (int i = 1; i <= ncv; i++)
+            if (StreamRef<S>::matches(op.inputs[q].data(), n, 2UL * (unsigned long) i)) { recognised++; break; }
+    ctx.count("solver_streams/expand_basis_calls", g_expand_calls);
+    ctx.count("solver_streams/first_try_vectors_recognised", recognised);
+    if (recognised != g_expand_calls)
+        ctx.violation(std::string("solver-stream/restart-vector-is-not-a-park-miller-stream/") + name, info().kv("expand_basis_calls", g_expand_calls).kv("operator_inputs_equal_to_a_stream_of_seed_2i", recognised).str());
+    if (want_breakdowns && g_expand_calls == 0) ctx.inconclusive("no breakdown in a rank-deficient run");
+    ctx.count("evals");
+}
+static void solver_streams(vf::Ctx& ctx, long t)
+{
+    auto& r = ctx.rng;
+    const int n = (int) r.range(8, 60), rank = (int) r.range(1, 3);
+    const int ncv = (int) r.range(rank + 4, std::min(n, rank + 12)), nev = (int) r.range(1, std::min(3, ncv - 3));
+    const bool deficient = (t % 2 == 0);
+    // exactly rank-deficient (diagonal 1..rank, exactly representable) or full-rank generic
+    Eigen::MatrixXd A = Eigen::MatrixXd::Zero(n, n);
+    if (deficient) for (int i = 0; i < rank; i++) A(i, i) = i + 1;
+    else { for (int i = 0; i < n; i++) for (int j = 0; j <= i; j++) A(i, j) = A(j, i) = r.gauss(); }
+    switch (t % 3)
+    {
+        case 0: { RecOp<double> op(A); stream_check<Spectra::SymEigsSolver<RecOp<double>>>(ctx, "SymEigsSolver<double>", op, nev, ncv, Spectra::SortRule::LargestAlge, deficient); break; }
+        case 1:
+        {
+            Eigen::MatrixXd G = A;
+            if (deficient) { if (rank >= 2) G(0, 1) = 1; } else for (int i = 0; i < n; i++) for (int j = 0; j < n; j++) G(i, j) = r.gauss();
+            RecOp<double> op(G);
+            stream_check<Spectra::GenEigsSolver<RecOp<double>>>(ctx, "GenEigsSolver<double>", op, std::min(nev, ncv - 3), ncv, Spectra::SortRule::LargestMagn, deficient);
+            break;
+        }
+        default:
+        {
+            Eigen::MatrixXcd H = A.cast<std::complex<double>>();
+            if (!deficient) for (int i = 0; i < n; i++) for (int j = 0; j < i; j++) { const double im = r.gauss(); H(i, j) += std::complex<double>(0, im); H(j, i) -= std::complex<double>(0, im); }
+            RecOp<std::complex<double>> op(H);
+            stream_check<Spectra::HermEigsSolver<RecOp<std::complex<double>>>>(ctx, "HermEigsSolver<complex<double>>", op, nev, ncv, Spectra::SortRule::LargestAlge, deficient);
+        }
+    }
+    ctx.nontriv("solver-streams/" + std::to_string(t));
+    if (ctx.want_sample) ctx.set_sample(vf::J().kv("kind", "solver-streams").kv("n", n).kv("rank_deficient", deficient).kv("ncv", ncv).str());
+}
+
 void vf_run_case(vf::Ctx& ctx, long idx)
 {
     build_cases(ctx);
@@ -249,6 +359,7 @@ void vf_run_case(vf::Ctx& ctx, long idx)
         case 0: sweep(ctx, c.a); break;
         case 1: orbit(ctx); break;
         case 2: seeds(ctx, c.a, c.b); break;
+        case 4: solver_streams(ctx, c.a); break;
         default: threads(ctx, c.a);
     }
 }
